@@ -59,7 +59,7 @@ let () =
       let started = env.ThreadModel.e_started in
       let calls = String.concat " " (List.map show_call env.ThreadModel.e_calls) in
       let ge, stack = match started with
-        | [t] -> (if int_of_z t.ThreadModel.th_stack < int_of_string size then "0" else "1"),
+        | [t] -> (if BinInt.Z.ltb t.ThreadModel.th_stack (z_of_string size) then "0" else "1"),
                  string_of_z t.ThreadModel.th_stack
         | _ -> "-", "-" in
       Printf.printf "M st=%s started=%d stack_ge=%s || %s stack=%s\n" (sname st) (List.length started) ge calls stack;
